@@ -98,8 +98,15 @@ class Life(object):
                 if self.br and not self.br.sock.closed:
                     self.br.close_connection(320, 'CONNECTION_FORCED')
                     rt.advance(0.01)
-            elif k == 'drop':
+            elif k in ('drop', 'dropmid'):
                 if self.br and not self.br.sock.closed:
+                    if k == 'dropmid':
+                        # the session ends in the middle of a frame
+                        from pamqp import frame as _fr, specification as _sp
+                        raw = _fr.marshal(_sp.Basic.Deliver(consumer_tag='t', delivery_tag=1,
+                                                             exchange='', routing_key='k'), 1)
+                        self.br.push_bytes(raw[:11])
+                        rt.advance(0.01)
                     self.br.drop('eof')
                     rt.advance(0.01)
             else:
@@ -176,8 +183,8 @@ def op_coq(op):
                                'drop': 'HDrop', 'reject': 'HReject'}[op[1]]
     if k == 'close':
         return '(LClose %s)' % {'answers': 'CAnswers', 'silent': 'CSilent', 'drop': 'CDrop'}[op[1]]
-    if k in ('channel', 'bclose', 'drop'):
-        return {'channel': 'LChannel', 'bclose': 'LBClose', 'drop': 'LDropSock'}[k]
+    if k in ('channel', 'bclose', 'drop', 'dropmid'):
+        return {'channel': 'LChannel', 'bclose': 'LBClose', 'drop': 'LDropSock', 'dropmid': 'LDropSock'}[k]
     return '(%s %s)' % ({'confirm': 'LConfirm', 'deliver': 'LDeliver', 'return': 'LReturn',
                          'declare': 'LDeclare', 'chclose': 'LChClose', 'bchclose': 'LBChClose',
                          'chopen': 'LChOpen'}[k], coq_nat(op[1]))
